@@ -245,10 +245,10 @@ ADDED = {
            "pools with steep impact factors; a sixth of the typical amounts (a quarter of the broker's) are handed over as floats or ints.",
     "C04": " Twin scenes: before 30 % of the calls the whole scene is deep-copied; if the call is refused, the copy (which never saw it) is fed "
            "the next three operations next to the real scene and must agree with it in verdict, state, reported balances and action records.",
-    "C06": " The tick handed to nearest_usable_tick is an int, a numpy integer, a float or a Decimal.",
+    "C06": " The tick handed to nearest_usable_tick is an int, a numpy integer, a float or a Decimal; the reverse conversion is probed at the top tick as well.",
     "C07": " In a third of the live cases a sibling pool (other decimals / quote side, same process) is shown the same Decimal price first; a quarter of the full removals ask for more liquidity than the position holds.",
     "C09": " Amount fractions include 0.999996 / 1.000004 of the balance (inside the wallet's 0.001 % tolerance without being equal); one "
-           "deterministic probe per run reproduces the listed float-decimals-factor finding.",
+           "deterministic probe per run reproduces the listed float-decimals-factor finding; in 30 % of the pairs the pool's tokens carry addresses and the quote token is an equal token written out again.",
     "C10": " In a third of the cases Aave on a second chain (same token names, other indices, same broker) is read and written in between; 30 % of the markets also list a reserve whose file has a hole; get_max_repay_amount is compared with the ledger's debt.",
     "C11": " In 30 % of the cases a second Aave market with the same token names lives under the same broker and is read and written in between.",
     "C12": " Index rows may repeat for stretches while prices move; one account in ten is worth a fraction of a cent (positions of a few atomic "
@@ -261,7 +261,7 @@ ADDED = {
     "C17": " Deposits the model cannot decide (negative impact larger than the deposit, or worth about one ulp of the pool's USD figures) are "
            "issued as well: refused (nothing moves) or accepted with a non-negative mint; an absent virtual inventory is None or NaN; 8 % of the v2 worlds are single-token markets; v1 markets get their tokens registered in several add_token calls, some twice.",
     "C19": " One case in eight has 9-13 strategies (more than 4 x workers, so a pool chunks its task list); option traders ask for quotes; "
-           "Aave mixes may contain a whale (everything supplied, a debt far below one atomic unit: figures at 1e30 and beyond); the vandal also triples a column of the price table its run was handed.",
+           "Aave mixes may contain a whale (everything supplied, a debt far below one atomic unit: figures at 1e30 and beyond); the vandal also triples a column of the price table its run was handed; half of the sequential runs are preceded by a single-strategy trial run over the same configuration.",
     "C20": " performance_metrics is also fed the same series with rows missing (duration = span covered).",
 }
 for _k, _v in ADDED.items():
